@@ -36,6 +36,8 @@ type Cap struct {
 	// ClassifySite, when set and returning non-empty, overrides ClassifyExt for one call site.
 	ClassifySite func(site ssa.Instruction, fn *ssa.Function) string
 	Cut          func(site ssa.CallInstruction, in *ssa.Function) string // non-empty = injection point name
+	// ClassifyGlobal classifies a read of a package-level variable outside the module ("sink:..." or "pure").
+	ClassifyGlobal func(g *ssa.Global) string
 	// StopAt: module functions that are not entered (with the reason), e.g. documented opt-in APIs.
 	StopAt func(fn *ssa.Function) string
 
@@ -116,6 +118,16 @@ func (k *Cap) Run() {
 						continue
 					}
 					switch v := (*op).(type) {
+					case *ssa.Global:
+						if k.ClassifyGlobal != nil && v.Pkg != nil && !strings.HasPrefix(v.Pkg.Pkg.Path(), Module) {
+							if cl := k.ClassifyGlobal(v); strings.HasPrefix(cl, "sink") {
+								hk := "global:" + v.String() + "@" + k.C.Pos(in.Pos())
+								if !seenHit[hk] {
+									seenHit[hk] = true
+									k.Sinks = append(k.Sinks, CapHit{Callee: "variable " + v.String(), Class: cl, Site: in.Pos(), In: fn})
+								}
+							}
+						}
 					case *ssa.Function:
 						if ci, ok := in.(ssa.CallInstruction); ok && ci.Common().Value == v {
 							continue // direct call, handled below
